@@ -87,6 +87,23 @@ def at_scale_case(ctx, g, rng):
                       triples_read=len(got) if isinstance(got, list) else got, first_difference_at=bad,
                       written=want[bad] if bad is not None and bad < len(want) else None,
                       read_back=got[bad] if isinstance(got, list) and bad is not None and bad < len(got) else None)
+    # a file of tens of megabytes in which every record spans several physical lines (identifiers with line breaks):
+    # wherever a reader cuts the file into blocks, a record lies across the cut
+    big = "x" * 50000
+    ids = [f"{i}\n{big}\n{i}" for i in range(4)] + [f"{big}\r\n{i}" for i in range(2)]
+    brefs = [api.Reference(prefix="a", identifier=i) for i in ids]
+    k = 170 if ctx.tier == "thorough" else 130
+    btriples = [Triple(subject=brefs[i % 6], predicate=brefs[(i + 1) % 6], object=brefs[(i + 2) % 6]) for i in range(k)]
+    bwant = [(t.subject.pair, t.predicate.pair, t.object.pair) for t in btriples]
+    evaluated("ref:triples-file")
+    bpath = ctx.tmp / "huge.tsv"
+    wo = call(write_triples, btriples, bpath)
+    back = call(read_triples, bpath) if wo[0] == "ret" else wo
+    bgot = [(t.subject.pair, t.predicate.pair, t.object.pair) for t in back[1]] if back[0] == "ret" else back
+    if bgot != bwant:
+        violation(["C15"], "ref:triples-file", "triples-file-round-trip-differs", file="huge.tsv", size=bpath.stat().st_size if bpath.exists() else None,
+                  triples_written=len(bwant), triples_read=len(bgot) if isinstance(bgot, list) else bgot)
+    bpath.unlink(missing_ok=True)
     # the parse / print laws on long values
     for r in rng.sample(refs, k=10):
         evaluated("ref:print-parse")
